@@ -26,7 +26,7 @@ REQUIRES = ['From SFC.Base Require Import Res.', 'From SFC.Block Require Import 
 
 WORD = 'exogenous'
 NAMES = ['x', 'y', 'z', 't', 't_minus_1', 'HH__F', 'GOV__T', 'LAG_x', 'k2', 'alpha', 'Y_1', 'C', 'MaxTimes', 'tt',
-         'GOOD__SUP_GOOD', 'a', 'b', 'w', 'Err_Tol', 'T']
+         'GOOD__SUP_GOOD', 'a', 'b', 'w', 'Err_Tol', 'T', 'W0', 'K10', 'STOCK_2000']
 WS = ['', '', ' ', ' ', '  ', '\t', ' \t ', '   ']
 SUFFIX = {'k': '(k-1)', 't': '(t-1)', 'tok': ' (k -1 )'}
 HOSTILE = ['an exogenous bonus', 'EXOGENOUS', 'Exogenous Variables', 'x = y', 'a = b = c', 'a # b', '## note', '#',
@@ -408,7 +408,7 @@ def build_model(desc, longname):
     Market(c, 'LAB', 'Labour market')
     Market(c, 'GOOD', 'Goods market')
     gov.SetExogenous('DEM_GOOD', '[0.,] + [20.,] * 105')
-    gov.AddVariable('BONUS', desc, '1.0')
+    gov.AddVariable('BONUS', desc, '0.01*T + 1.0')      # a genuine simultaneous equation (a constant would survive being filed as exogenous)
     mod.MaxTime = 3
     return mod
 
